@@ -479,6 +479,110 @@ func ruleALStr(c *Ctx) {
 			}
 		}
 	}
+	// views of the store, module-wide: what leaves the bank is an immutable string view. A []byte sharing the
+	// store is mutable and — unless its capacity is clipped — covers the spare capacity the next interned value
+	// will be appended into.
+	stringViewOnly := func(a *ssa.Alloc, except ssa.Instruction) bool {
+		for _, r := range referrersOf(a) {
+			if r == except {
+				continue
+			}
+			if _, isDbg := r.(*ssa.DebugRef); isDbg {
+				continue
+			}
+			cv, ok := r.(*ssa.Convert)
+			if !ok || !isUnsafePointer(cv.Type()) {
+				return false
+			}
+			for _, r2 := range referrersOf(cv) {
+				cv2, ok := r2.(*ssa.Convert)
+				if !ok {
+					return false
+				}
+				pt, ok := cv2.Type().Underlying().(*types.Pointer)
+				if !ok || !isBasicKind(pt.Elem(), types.String) {
+					return false
+				}
+				for _, r3 := range referrersOf(cv2) {
+					if u, ok := r3.(*ssa.UnOp); !ok || u.Op != token.MUL {
+						return false
+					}
+				}
+			}
+		}
+		return true
+	}
+	for _, fn := range P.ModuleFuncs() {
+		n := 0
+		for _, b := range fn.Blocks {
+			for _, in := range b.Instrs {
+				ld, ok := in.(*ssa.UnOp)
+				if !ok || !isSDataLoad(ld) {
+					continue
+				}
+				for _, r := range referrersOf(ld) {
+					bad := ""
+					switch x := r.(type) {
+					case *ssa.DebugRef:
+					case *ssa.Call:
+						bi, isB := x.Call.Value.(*ssa.Builtin)
+						switch {
+						case isB && (bi.Name() == "len" || bi.Name() == "cap"):
+						case isB && bi.Name() == "append" && x.Call.Args[0] == ssa.Value(ld):
+							kept := false
+							for _, r2 := range referrersOf(x) {
+								if st, isSt := r2.(*ssa.Store); isSt && isSData(st.Addr) {
+									kept = true
+								} else if _, isDbg := r2.(*ssa.DebugRef); !isDbg {
+									bad = "the grown store is also kept somewhere other than in the bank"
+								}
+							}
+							if !kept {
+								bad = "the store is appended to without the result being put back"
+							}
+						case isB && (bi.Name() == "append" || bi.Name() == "copy") && len(x.Call.Args) > 1 && x.Call.Args[1] == ssa.Value(ld):
+							// copied from
+						default:
+							bad = "the bank's string store is handed to " + x.Call.Value.Name()
+						}
+					case *ssa.Slice:
+						if x.Max != nil {
+							break // capacity clipped: the view ends where it ends
+						}
+						for _, r2 := range referrersOf(x) {
+							switch y := r2.(type) {
+							case *ssa.DebugRef:
+							case *ssa.Call:
+								if !(isBuiltinCall(y, "SliceData") || isBuiltinCall(y, "len")) {
+									bad = "a slice of the bank's string store, with the store's spare capacity, is passed on"
+								}
+							case *ssa.Store:
+								if isSData(y.Addr) {
+									break
+								}
+								if a, isA := y.Addr.(*ssa.Alloc); isA && y.Val == ssa.Value(x) && stringViewOnly(a, y) {
+									break
+								}
+								bad = "a []byte sharing the bank's string store and its spare capacity is stored: the next value interned lands in memory the holder of that slice can append into"
+							default:
+								bad = "a slice of the bank's string store, with the store's spare capacity, escapes"
+							}
+						}
+					case *ssa.Store:
+						if x.Val == ssa.Value(ld) {
+							bad = "the bank's string store itself is stored elsewhere"
+						}
+					case *ssa.Return:
+						bad = "the bank's string store itself is returned"
+					}
+					if bad != "" {
+						n++
+						c.Bad(fmt.Sprintf("%s/view-of-sData#%d", fnKey(fn), n), P.pos(r.Pos()), bad)
+					}
+				}
+			}
+		}
+	}
 	// ToString itself
 	key := fnKey(ts)
 	in := ts.Params[len(ts.Params)-1]
@@ -743,13 +847,21 @@ func ruleALBump(c *Ctx) {
 	c.Check(okGrow, key+"/growth", P.pos(al.Pos()), "exactly when len == cap a new array of the type is allocated, installed, and its size recorded as cap", "growth does not install a new typed array whose size is recorded as the capacity exactly when the arena is full")
 	// the no-growth path needs len != cap, i.e. the full test dominates the slot use on one edge: covered by growth being on the equal edge and joining
 	c.Rule("AL-CLR", "", 0)
-	okClr := false
+	okClr, whyClr := false, ""
 	for _, cs := range callsIn(al) {
-		if cs.Static != nil && cs.Static.Name() == "typedmemclr" && cs.Common.Args[1] == ptr && fieldLoad(cs.Common.Args[0], R.ptyp) && dominatesInstr(cs.Instr, ret) {
-			okClr = true
+		if cs.Static != nil && isTypedClearCandidate(cs.Static) && len(cs.Common.Args) == 2 && cs.Common.Args[1] == ptr && fieldLoad(cs.Common.Args[0], R.ptyp) && dominatesInstr(cs.Instr, ret) {
+			if ok, why := typedClear(P, cs.Static, 0); ok {
+				okClr = true
+			} else {
+				whyClr = why
+			}
 		}
 	}
-	c.Check(okClr, key+"/clear", P.pos(ret.Pos()), "typedmemclr(ptyp, ptr) on the returned pointer dominates the return", "the slot handed out is not cleared with its own type first: a recycled bank leaks values from an earlier record")
+	if !okClr && whyClr != "" {
+		c.Unk(key+"/clear", P.pos(ret.Pos()), "the slot handed out is cleared by something that is not known to clear all of it: "+whyClr)
+	} else {
+		c.Check(okClr, key+"/clear", P.pos(ret.Pos()), "the runtime's typedmemclr(ptyp, ptr) on the returned pointer dominates the return", "the slot handed out is not cleared with its own type first: a recycled bank leaks values from an earlier record")
+	}
 	// no pointer into a growable arena table outlives the call: an element address of a slice field that is
 	// appended to somewhere must not be stored in a field or a package variable (append may move the table)
 	c.Rule("AL-STALE", "no address of an element of a slice that is grown by append is kept in a field or package variable: after the slice is reallocated such a pointer refers to a dead copy whose counters diverge from the live entry", 1)
